@@ -239,6 +239,16 @@ impl<'env> Executor<'env> {
         let mut loaded_filters = [None; MAX_LOCALS];
         let mut loaded_tests = [None; MAX_LOCALS];
 
+        #[cfg(feature = "verif_hooks")]
+        crate::verif_hooks::emit(|| crate::verif_hooks::Event::Enter {
+            stream: state.instructions as *const _ as usize,
+            pc,
+            operands: stack.verif_len(),
+            frames: state.ctx.verif_frame_is_loop().len(),
+            captures: out.verif_capture_depth(),
+            auto_escape: !matches!(state.auto_escape, AutoEscape::None),
+        });
+
         // If we are extending we are holding the instructions of the target parent
         // template here.  This is used to detect multiple extends and the evaluation
         // uses these instructions when it makes it to the end of the instructions.
@@ -346,6 +356,20 @@ impl<'env> Executor<'env> {
                     }
                 }};
             }
+
+            #[cfg(feature = "verif_hooks")]
+            crate::verif_hooks::emit(|| crate::verif_hooks::Event::Instr {
+                stream: state.instructions as *const _ as usize,
+                pc,
+                operands: stack.verif_len(),
+                frame_is_loop: state.ctx.verif_frame_is_loop(),
+                captures: out.verif_capture_depth(),
+                auto_escape_depth: auto_escape_stack.len(),
+                #[cfg(feature = "fuel")]
+                fuel: crate::vm::fuel::verif_fuel_for_instruction(instr),
+                #[cfg(not(feature = "fuel"))]
+                fuel: 0,
+            });
 
             // if the fuel consumption feature is enabled, track the fuel
             // consumption here.
@@ -863,6 +887,16 @@ impl<'env> Executor<'env> {
             }
             pc += 1;
         }
+
+        #[cfg(feature = "verif_hooks")]
+        crate::verif_hooks::emit(|| crate::verif_hooks::Event::Exit {
+            stream: state.instructions as *const _ as usize,
+            operands: stack.verif_len(),
+            frames: state.ctx.verif_frame_is_loop().len(),
+            captures: out.verif_capture_depth(),
+            auto_escape: !matches!(state.auto_escape, AutoEscape::None),
+            auto_escape_depth: auto_escape_stack.len(),
+        });
 
         Ok(stack.try_pop())
     }
